@@ -2,7 +2,7 @@
 import os, importlib
 import vlib
 
-TRANSLATORS = []   # (module name, output file)  -- filled as translators land
+TRANSLATORS = ["translate_methods"]
 
 def regenerate(prop=None):
     info = {}
